@@ -82,8 +82,39 @@ func genAmt(g *Gen) {
 		}
 	}
 	rec("", maxLen)
+	// the 8/9-significant-fraction-digit edge and the supply edge, exhaustively over {0,1} fractions of
+	// 7..9 digits behind three integer parts (includes trailing-zero runs that bring 9 digits back to <= 8)
+	for _, ip := range []string{"0", "", "206438399", "206438400"} {
+		for l := 7; l <= 9; l++ {
+			for v := 0; v < 1<<uint(l); v++ {
+				fp := make([]byte, l)
+				for j := 0; j < l; j++ {
+					fp[j] = byte('0' + (v>>uint(j))&1)
+				}
+				emitParse("frac-edge", ip+"."+string(fp))
+			}
+		}
+	}
+	if !g.Quick() {
+		// deeper exhaustive layers over reduced alphabets (the full 16-symbol alphabet stops at length 5)
+		var rec2 func(class, alpha, prefix string, n int)
+		rec2 = func(class, alpha, prefix string, n int) {
+			if n == 0 {
+				emitParse(class, prefix)
+				return
+			}
+			for i := 0; i < len(alpha); i++ {
+				rec2(class, alpha, prefix+string(alpha[i]), n-1)
+			}
+		}
+		rec2("exh6-reduced", "019.+-e ", "", 6)
+		rec2("exh7-reduced", "09.+-", "", 7)
+		for l := 8; l <= 11; l++ {
+			rec2("exh8to11-ternary", "01.", "", l)
+		}
+	}
 	// random structured numerals
-	n := g.Scale(20000, 400000)
+	n := g.Scale(160000, 2000000)
 	for i := 0; i < n; i++ {
 		switch r.Intn(8) {
 		case 0, 1, 2: // valid numeral
